@@ -435,6 +435,10 @@ func vhC14Decimal(pos, large int) {
 
 // jCheap draws a child for the structure harness: cheap scalars (the scalar
 // decoders are the subject of VH_C14_Scalar) and nested containers.
+// jFan is the fan-out bound below the top level (2; 1 for depth-3 documents, whose full fan-out-2 space
+// has ~4*10^7 shapes).
+var jFan = 2
+
 func jCheap(depth int) *jv {
 	k := vhChoose(6)
 	if depth == 0 && k >= 4 {
@@ -450,14 +454,14 @@ func jCheap(depth int) *jv {
 	case 3:
 		return &jv{kind: jUint32, u: uint64(vhU8()&7) + 70000}
 	case 4:
-		n := vhChoose(3)
+		n := vhChoose(jFan + 1)
 		a := &jv{kind: jArray}
 		for i := 0; i < n; i++ {
 			a.kids = append(a.kids, jCheap(depth-1))
 		}
 		return a
 	}
-	n := vhChoose(3)
+	n := vhChoose(jFan + 1)
 	o := &jv{kind: jObject}
 	for i := 0; i < n; i++ {
 		o.kids = append(o.kids, jCheap(depth-1))
@@ -468,6 +472,10 @@ func jCheap(depth int) *jv {
 
 // VH_C14_Struct: nesting depth <= depth, fan-out <= 2, small (0) or large (1) format.
 func VH_C14_Struct(depth, large int) {
+	jFan = 2
+	if depth >= 3 {
+		jFan = 1 // depth 3: fan-out <= 2 at the top level, <= 1 below
+	}
 	top := &jv{kind: []int{jObject, jArray}[vhChoose(2)]}
 	n := vhChoose(3)
 	for i := 0; i < n; i++ {
